@@ -25,7 +25,9 @@ RULE = (
     "name, quoted_name with quote flag) + a history of 2-7 operations: execute statement k with a map "
     "(None key, identity, missing keys, chains a->b b->c, None / '' targets, reserved-word target; passed per "
     "execute, per statement or per engine) or evict statements from the cache. Exhaustive part: every ordered "
-    "pair (and triple in thorough) of 9 maps x select on a None / per_user table, with and without eviction. "
+    "pair (and triple in thorough) of 9 maps x select on a None / per_user table, with and without eviction; "
+    "map histories: all sequences of 2-3 maps where each map is the previously used dict OBJECT copied and "
+    "edited or edited in place (so keys SQLAlchemy wrote into it travel along), None key changed / removed. "
     "Observed per operation: the SQL text seen by before_cursor_execute, error class, which schemas were "
     "read/written (row values name their schema; table contents + sqlite_master diffed). Oracle: the same "
     "statement rebuilt on Table objects carrying the translated schemas, executed without map: SQL text, rows "
@@ -156,7 +158,8 @@ def translate(repo, outdir):
 # ---------------------------------------------------------------------------------------------
 # case generation.  desc = [0, stmts, ops]
 #   stmt = [kind, slotA, slotB]; slot = [light, nameopt, force]  (nameopt [] | [codes], force 0|1|2)
-#   op   = [0, sid, map, route] | [2, [sids]];  map = [[keyopt, valopt], ...]; route 0 per-execute option,
+#   op   = [0, sid, map, route(, how)] | [2, [sids]];  how 0 fresh dict, 1 copy of the previously used dict
+#          object then edited to `map`, 2 the previously used object edited in place;  map = [[keyopt, valopt], ...]; route 0 per-execute option,
 #          1 statement option, 2 engine option, 3 no option at all (map must be [])
 K_SEL, K_JOIN, K_INS, K_INSSEL, K_UPD, K_DEL, K_IMV, K_CREATE, K_DROP, K_INDEX, K_DEFAULT, K_MARKER = range(12)
 DDL_KINDS = (K_CREATE, K_DROP, K_INDEX)
@@ -236,6 +239,21 @@ def gen_cases(rng, tier):
             if depth == 2:
                 ops2 = [ops[0], [2, [0]], ops[1]]
                 cases.append({"in": [0, st, ops2], "kind": "pairs-evict"})
+    # ---- map histories: every map is built from the dict object used before (copy + edit / in-place edit) ----
+    pool = [{None: "s1"}, {None: "s2", "per_user": "s3"}, {"per_user": "s1"}]
+    if tier == "thorough":
+        pool.append({None: "s3"})
+    for a, kind in ((None, K_SEL), (None, K_INS), ("per_user", K_JOIN)):
+        st = [[kind, slot(a), slot(None)]]
+        for n in (2, 3):
+            if n == 3 and kind != K_SEL and tier != "thorough":
+                continue
+            for seq in itertools.product(range(len(pool)), repeat=n):
+                for hows in itertools.product((1, 2), repeat=n - 1):
+                    ops = [[0, 0, mk_map(pool[seq[0]]), 0, 0]]
+                    for i, h in zip(seq[1:], hows):
+                        ops.append([0, 0, mk_map(pool[i]), 2 if h == 2 and len(ops) % 2 else 0, h])
+                    cases.append({"in": [0, st, ops], "kind": "map-history"})
     # ---- every kind x a few fixed maps, None-flip histories ----
     for kind in range(K_MARKER + 1):
         for a, b in ((None, "other"), ("per_user", None), ("per_user", "other"))[: 3 if tier == "thorough" else 2]:
@@ -276,7 +294,10 @@ def gen_cases(rng, tier):
                 continue
             m = rng.choice(pool) if rng.random() < 0.7 else _rand_map(rng, special)
             route = rng.choice([0, 0, 1, 2]) if m else rng.choice([0, 3])
-            ops.append([0, rng.randrange(nst), mk_map(m), route])
+            op = [0, rng.randrange(nst), mk_map(m), route]
+            if m and rng.random() < 0.3:
+                op.append(rng.choice([1, 2]))
+            ops.append(op)
         cases.append({"in": [0, stmts, ops], "kind": "random" + ("-" + "+".join(sorted(special)) if special else "")})
     return cases
 
@@ -553,9 +574,12 @@ def impl(c):
 
     outs = []
     viols = []
+    snaps = []  # per operation: the content of the dict object handed to SQLAlchemy, before the execution
+    prev_obj, prev_user = None, None
     gov = {}  # oracle's own bookkeeping: statement -> None-key presence of the governing compilation
     for o in ops_d:
         if o[0] == 2:
+            snaps.append([])
             cache = eng._compiled_cache
             for sid in o[1]:
                 gov.pop(sid, None)
@@ -568,11 +592,28 @@ def impl(c):
                         del cache[key]
             outs.append([9])
             continue
-        _, sid, mp, route = o
+        sid, mp, route = o[1], o[2], o[3]
+        how = o[4] if len(o) > 4 else 0
         kind, sl_a, sl_b = stmts_d[sid]
+        # m = the map the caller means; obj = the dict object the caller hands over: a fresh dict (how 0),
+        # or the previously used object copied (1) / edited in place (2) so that its own keys become m.
+        # Keys SQLAlchemy itself wrote into the previous object ("_none") travel along, as they would
         m = None if route == 3 else {unO(k): unO(v) for k, v in mp}
+        obj = None
+        if m is not None:
+            if how == 0 or prev_obj is None:
+                obj = dict(m)
+            else:
+                obj = dict(prev_obj) if how == 1 else prev_obj
+                for k in list(prev_user):
+                    if k not in m:
+                        obj.pop(k, None)
+                obj.update(m)
+            prev_obj, prev_user = obj, dict(m)
+        snaps.append(mk_map(obj) if obj else [])
+        leaked = obj is not None and "_none" in obj and "_none" not in m
         st, params = built[sid]
-        res = _run(st, params, dict(m) if m is not None else None, route)
+        res = _run(st, params, obj, route)
         code = res["code"]
         if kind == K_DEFAULT and res["sql"]:
             # the default's SELECT reaches the cursor before the INSERT is rendered
@@ -598,7 +639,11 @@ def impl(c):
         if has_map and not brack and not ddl and sid not in gov:
             gov[sid] = none_now
         v = None
-        none_name = any(sl[1] and unS(sl[1][0]) == "_none" for sl in mapped) or (has_map and "_none" in m)
+        # the known "_none" deviation: a translated schema or a caller's key is literally "_none", or the alias
+        # SQLAlchemy wrote into a reused dict stands in for a None key the caller has removed.  (A leaked alias
+        # next to a None key that is still there must be harmless: the current None entry wins)
+        none_name = (any(sl[1] and unS(sl[1][0]) == "_none" for sl in mapped) or (has_map and "_none" in m)
+                     or (leaked and None not in m))
         if code == 3:
             if not (has_map and brack):
                 v = "CompileError (bracket) without a bracket name in a translated schema"
@@ -646,7 +691,7 @@ def impl(c):
     sk_tree = [[[[0, S(i[1])] if i[0] == 0 else [1, i[1]] for i in sql] for sql in sk] for sk in skels]
     _LAST["key"] = json.dumps(d)
     _LAST["viols"] = viols
-    return [sk_tree, qtab, outs]
+    return [sk_tree, qtab, outs, snaps]
 
 
 def oracle(c, obs):
@@ -680,7 +725,7 @@ def match_finding(c, what):
 
 
 def model_pair(c, obs):
-    sk_tree, qtab, outs = obs
+    sk_tree, qtab, outs, snaps = obs
     d = _desc(c)
     stmts_d, ops_d = d[1], d[2]
     mstmts = []
@@ -706,11 +751,11 @@ def model_pair(c, obs):
             first.append((len(mstmts), None))
             mstmts.append(conv[0])
     mops = []
-    for o in ops_d:
+    for o, mp in zip(ops_d, snaps):
         if o[0] == 2:
             mops.append([2, [first[s][0] for s in o[1]]])
             continue
-        _, sid, mp, route = o
+        sid = o[1]
         kind = stmts_d[sid][0]
         if kind in DDL_KINDS:
             mops.append([1, first[sid][0], mp])
